@@ -296,6 +296,18 @@ def _safemap_cases(rng, tier):
     ops += [{"op": "del", "k": fresh[-1]}, {"op": "dump"}] + _sm_gets(fresh + [0, 1, live - 1, 300000])
     ops += [{"op": "put", "k": 777777, "v": 7}, {"op": "dump"}, {"op": "get", "k": 777777}]
     out.append({"kind": "safemap", "ops": ops})
+    # (3) the same merge with the newer generation well populated (the pattern the cache's timer index shows after
+    #     > 10000 timer removals with 1000 live entries): afterwards the newer keys are still found, replaced, deleted
+    many = [400000 + i for i in range(300)]
+    ops = [{"op": "put", "k": k, "v": k + 1} for k in range(1000)]
+    ops += [{"op": "churn", "k": 100000, "n": 10001}]
+    ops += [{"op": "put", "k": k, "v": k * 2} for k in many] + [{"op": "dump"}]
+    ops += [{"op": "del", "k": 0}, {"op": "dump"}]                       # 999 old entries left: old merged into new
+    ops += _sm_gets(many[:5] + many[-5:] + [1, 500, 999, 0])
+    ops += [{"op": "put", "k": many[3], "v": 9}, {"op": "get", "k": many[3]}, {"op": "del", "k": many[4]}, {"op": "get", "k": many[4]},
+            {"op": "put", "k": many[4], "v": 4}, {"op": "get", "k": many[4]}, {"op": "del", "k": 500}, {"op": "get", "k": 500}, {"op": "dump"}]
+    ops += _sm_gets(many[100:110])
+    out.append({"kind": "safemap", "ops": ops})
     for _ in range(3 if tier != "thorough" else 12):
         ops = []
         keys = list(range(8))
